@@ -33,7 +33,7 @@ from vf import build, run, report
 
 BUDGET_A = {"quick": 400, "thorough": 10000}
 BUDGET_B = {"quick": 60, "thorough": 1500}
-BUDGET_FAULT = {"quick": 6, "thorough": 60}          # histories whose every write is failed
+BUDGET_FAULT = {"quick": 10, "thorough": 100}          # histories whose every write is failed
 BUDGET = {"quick": BUDGET_A["quick"] + BUDGET_B["quick"],
           "thorough": BUDGET_A["thorough"] + BUDGET_B["thorough"]}
 OPS_PER_HISTORY = 70
@@ -91,6 +91,7 @@ def gen_config(rng):
            "wt": wt, "sizes": sizes, "nblk": nblk, "b0": b0, "offset": offset,
            "bufoff": rng.choice([0, 0, 0, 1, 8, 512]),
            "tail": rng.choice([0, 0, 300, 4096]),
+           "hook": rng.random() < 0.7,      # 30%: model-only, no verif_check_cache calls
            "init_seed": rng.getrandbits(48)}
     return cfg
 
@@ -138,7 +139,8 @@ def gen_history(rng, nops=OPS_PER_HISTORY):
 
     def emit(l):
         lines.append(l)
-        lines.append("chk")
+        if cfg["hook"]:
+            lines.append("chk")
 
     for _ in range(nops):
         r = rng.random()
@@ -196,10 +198,12 @@ def gen_history(rng, nops=OPS_PER_HISTORY):
             if rng.random() < 0.5:
                 bs = rng.choice(cfg["sizes"])
             lines.extend(post_open_lines(cfg, bs))
-            lines.append("chk")
+            if cfg["hook"]:
+                lines.append("chk")
             del recent[:]
     lines.append("fl")
-    lines.append("chk")
+    if cfg["hook"]:
+        lines.append("chk")
     lines.append("cl")
     return cfg, lines
 
@@ -305,7 +309,7 @@ def crc_poison(n):
     return zlib.crc32(b"\xa5" * n)
 
 
-def execute(cfg, lines, drv, env, wdir, tag="h", shim=None):
+def execute(cfg, lines, drv, env, wdir, tag="h", shim=None, call_timeout=30):
     """Run `lines` on a fresh backing file and judge them.  Returns a dict with the first
     violation (key, what, index of the offending line) or None, plus observation stats."""
     img = os.path.join(wdir, tag + ".img")
@@ -327,11 +331,10 @@ def execute(cfg, lines, drv, env, wdir, tag="h", shim=None):
         env["FAILWRITE_PATH"] = img
         env["FAILWRITE_K"] = "0"
         env["FAILWRITE_SYNCTRACE"] = "1"
-    direct = "direct" in cfg["flags"]
     infer = (cfg["cache"] == "on" and not cfg["wt"] and cfg["kind"] != "undo")
     st = {"ops": {}, "dirty_evictions": 0, "overlap_writes": 0, "direct_writes": 0,
           "byte_writes": 0, "file_compares": 0, "hook_checks": 0, "reads_checked": 0,
-          "blocks_read": 0, "fsync_seen": 0, "reopens": 0, "blocks": set(), "executed": 0}
+          "blocks_read": 0, "fsync_seen": 0, "reopens": 0, "wb_unimplemented": 0, "blocks": set(), "executed": 0}
     bs, off = 1024, 0
     pending = []                # [a, b) written through the cache, not yet seen in the file
     recent = []                 # byte ranges of the 8 most recently cache-accessed blocks
@@ -391,7 +394,7 @@ def execute(cfg, lines, drv, env, wdir, tag="h", shim=None):
             p = line.split()
             cmd = p[0]
             real = line.replace("@IMG", img).replace("@UNDO", undo)
-            res = sess.call(real)
+            res = sess.call(real, timeout=call_timeout)
             events = sess.pop_events()
             if res is None:
                 break
@@ -494,7 +497,9 @@ def execute(cfg, lines, drv, env, wdir, tag="h", shim=None):
                 o, size = int(p[1]), int(p[2])
                 tok = bytes.fromhex(p[3])
                 a = off + o
-                if err == "UNIMPL" and direct:
+                if err == "UNIMPL":
+                    # honest refusal (O_DIRECT, or align set by the bounce path)
+                    st["wb_unimplemented"] += 1
                     continue
                 if err != "0":
                     viol = unexpected()
@@ -580,8 +585,9 @@ def execute(cfg, lines, drv, env, wdir, tag="h", shim=None):
         os.close(fdr)
     crash = None
     if sess.timed_out:
-        crash = ("timeout", "driver did not answer line %d %r" % (st["executed"], lines[min(
-            st["executed"], len(lines) - 1)]))
+        j = min(st["executed"], len(lines) - 1)
+        crash = ("timeout", "line %d %r did not return within %d s" % (j, lines[j], call_timeout),
+                 op_class(lines[j]))
     elif sess.rc not in (0,) or (sess.dead and viol is None and st["executed"] < len(lines)):
         i = etext.find("==ERROR")
         if i < 0:
@@ -608,16 +614,20 @@ def outcome_key(res):
     """The violation key of an execute() result, or None."""
     if res["viol"]:
         return res["viol"][0]
-    if res["crash"] and res["crash"][0] != "timeout":
-        return crash_key(*res["crash"])
+    if res["crash"] and res["crash"][0] == "timeout":
+        return "C17 call never returns: %s" % res["crash"][2]
+    if res["crash"]:
+        return crash_key(*res["crash"][:2])
     return None
 
 
 def minimise(cfg, lines, key, drv, env, wdir, shim, budget=300):
     """Greedy removal of script lines (chunks, then single lines, last to first) while the
     same violation key is reproduced."""
+    tmo = 3 if key.startswith("C17 call never returns") else 30
+
     def fails(cand):
-        r = execute(cfg, cand, drv, env, wdir, tag="min", shim=shim)
+        r = execute(cfg, cand, drv, env, wdir, tag="min", shim=shim, call_timeout=tmo)
         return outcome_key(r) == key, r
 
     ok, r = fails(lines)
@@ -626,6 +636,8 @@ def minimise(cfg, lines, key, drv, env, wdir, shim, budget=300):
     cur = list(lines)
     if r["viol"]:
         cur = cur[:r["viol"][2] + 1]
+    elif r["crash"]:
+        cur = cur[:r["stats"]["executed"] + 1]
     runs = 0
     chunk = max(1, len(cur) // 4)
     while True:
@@ -639,10 +651,16 @@ def minimise(cfg, lines, key, drv, env, wdir, shim, budget=300):
             if cand and fails(cand)[0]:
                 cur = cand
                 changed = True
-            i -= chunk
-        if chunk > 1:
-            chunk //= 2
-        elif not changed:
+                i -= chunk
+            else:
+                i -= 1 if chunk <= 3 else chunk
+        if chunk > 3:
+            chunk = max(3, chunk // 2)
+        elif chunk > 1:
+            chunk -= 1
+        elif changed:
+            chunk = 3           # single lines went away: pairs (cl+open, op+chk) may now
+        else:
             return cur
 
 
@@ -654,6 +672,11 @@ def _run_history(arg):
         cfg, lines = gen_history(run.rng_for(seed, "C17", "A", idx))
     with run.Work("C17a") as w:
         res = execute(cfg, lines, drv, env, w.dir, shim=shim)
+        res["retried"] = False
+        if res["crash"] and res["crash"][0] == "timeout":
+            # a watchdog expiry is inconclusive until it repeats
+            res = execute(cfg, lines, drv, env, w.dir, shim=shim)
+            res["retried"] = True
         key = outcome_key(res)
     res.update({"idx": idx, "cfg": cfg, "variant": variant, "key": key, "given": bool(given),
                 "lines": lines if (key or idx < 3 or res["crash"]) else None,
@@ -1186,7 +1209,7 @@ def _main(rep, tier, seed, replay, scale, plain, tsan, drv_p, drv_a, env_p, env_
             rep.count("A_op_" + k.replace(" ", "_"), v)
         for k in ("dirty_evictions", "overlap_writes", "direct_writes", "byte_writes",
                   "file_compares", "hook_checks", "reads_checked", "blocks_read", "fsync_seen",
-                  "reopens"):
+                  "reopens", "wb_unimplemented"):
             rep.count("A_" + k, st[k])
         rep.add("A_channel_configs", cfgc)
         rep.add("A_distinct_blocks_per_history", st["blocks"])
@@ -1194,8 +1217,9 @@ def _main(rep, tier, seed, replay, scale, plain, tsan, drv_p, drv_a, env_p, env_
             rep.sample({"part": "A", "config": cfgc, "first_commands":
                         [l[:60] for l in r["lines"][:16]],
                         "dirty_evictions": st["dirty_evictions"]})
-        if r["crash"] and r["crash"][0] == "timeout":
-            rep.note_inconclusive("drv_io timeout idx=%d: %s" % (r["idx"], r["crash"][1]))
+        if r["retried"] and not (r["crash"] and r["crash"][0] == "timeout"):
+            rep.note_inconclusive("drv_io watchdog expired once on history idx=%d, not on the "
+                                  "re-run" % r["idx"])
         if r["key"]:
             if r["key"] in seen_keys:
                 rep.count("A_repeat_violations")
@@ -1205,7 +1229,8 @@ def _main(rep, tier, seed, replay, scale, plain, tsan, drv_p, drv_a, env_p, env_
             if not r["given"]:
                 with run.Work("C17min") as mw:
                     small = minimise(r["cfg"], r["lines"], r["key"], it[1], it[2], mw.dir, it[3])
-                    res2 = execute(r["cfg"], small, it[1], it[2], mw.dir, tag="min", shim=it[3])
+                    res2 = execute(r["cfg"], small, it[1], it[2], mw.dir, tag="min", shim=it[3],
+                                   call_timeout=10)
                     if outcome_key(res2) != r["key"]:
                         small, res2 = r["lines"], r
             what = res2["viol"][1] if res2["viol"] else res2["crash"][1]
